@@ -424,7 +424,18 @@ def r4_one_line(prog, rep: Report, csvr: Cls, jsonr: Cls):
             return False
         return isinstance(e, ast.Call) and isinstance(e.func, ast.Attribute) and isinstance(e.func.value, ast.Name) \
             and e.func.value.id in (load.params[0], "cls", "self") and e.func.attr not in ("split", "strip", "rstrip", "lstrip")
-    if rd and bypass and all(_by_helper(b[1]) for b in bypass):
+    def _hand_split(text: str) -> bool:
+        """a split / strip of the line written in place: what the rule positively knows to differ from csv.reader"""
+        try:
+            e = ast.parse(text, mode="eval").body
+        except SyntaxError:
+            return False
+        return any(isinstance(x, ast.Call) and isinstance(x.func, ast.Attribute) and x.func.attr in ("split", "strip", "rstrip", "lstrip", "partition")
+                   for x in ast.walk(e))
+    if rd and bypass and not any(_hand_split(b[1]) for b in bypass):
+        rep.unrec("C13.R4", load, "csv-load-always-reader", f"on some path the row comes from `{bypass[0][1]}` and from csv.reader only "
+                  "otherwise: where that value comes from is not followed", line=bypass[0][0])
+    elif rd and bypass and all(_by_helper(b[1]) for b in bypass):
         rep.unrec("C13.R4", load, "csv-load-always-reader", f"on some path the row comes from `{bypass[0][1]}`, a helper of the class, and "
                   "from csv.reader only otherwise: whether the helper parses like the reader is not decided", line=bypass[0][0])
     elif rd:
